@@ -757,9 +757,11 @@ fn var_case<C: Ck>(w: u32, h: u32, seed: u64, miri: bool, rep: &mut Report) {
     let group = kind.var_group();
     let gh = hash_str(group);
     // Under Miri a caught panic costs ~0.1 s, so the interpreter pass keeps the full 1..=10 geometry range
-    // but draws the coordinate extremes on five geometries only and ignores bwrbit=true for the colour
+    // but draws the coordinate extremes on two geometries only, uses a margin of 1 instead of 3 and ignores bwrbit=true for the colour
     // types that do not look at it.
-    let do_extremes = !miri || [(1, 1), (2, 3), (8, 8), (9, 4), (10, 10)].contains(&(w, h));
+    let do_extremes = !miri || [(2, 3), (10, 10)].contains(&(w, h));
+    // margin around the rotated bounds: 3 (Miri: 1)
+    let mg: i32 = if miri { 1 } else { 3 };
     for bwrbit in [false, true] {
         if miri && bwrbit && kind != Kind::Tri {
             continue;
@@ -816,14 +818,14 @@ fn var_case<C: Ck>(w: u32, h: u32, seed: u64, miri: bool, rep: &mut Report) {
             // every point of [-3, lw+3] x [-3, lh+3], every colour
             // (Miri: one rotation per geometry, chosen by (w+h)%4, ~1.5 ms per interpreted call)
             let grid = !miri || rot as u32 == (w + h) % 4;
-            let (gy, gx) = if grid { (lh as i32 + 3, lw as i32 + 3) } else { (-4, -4) };
-            for y in -3..=gy {
-                for x in -3..=gx {
+            let (gy, gx) = if grid { (lh as i32 + mg, lw as i32 + mg) } else { (-mg - 1, -mg - 1) };
+            for y in -mg..=gy {
+                for x in -mg..=gx {
                     let start = batch_colour(seed ^ 0x51, x, y, ncol);
                     for k in 0..ncol {
                         let ci = (start + k) % ncol;
                         let via_iter = x.wrapping_add(y.wrapping_mul(2)).wrapping_add(k as i32).rem_euclid(5) == 0;
-                        if !sampled && rot == 1 && [(13, 5), (5, 3)].contains(&(w, h)) && x == 1 && y == 1 {
+                        if !sampled && (rot == 1 || miri) && [(13, 5), (5, 3)].contains(&(w, h)) && x == 1 && y == 1 && geo.map(rot, x, y).is_some() {
                             sampled = true;
                             let (px, py) = geo.map(rot, x, y).unwrap();
                             let t = geo.target(px, py, ci);
@@ -868,8 +870,8 @@ fn var_case<C: Ck>(w: u32, h: u32, seed: u64, miri: bool, rep: &mut Report) {
             // one batch draw_iter over the whole grid (in- and out-of-bounds points mixed)
             if grid {
                 let mut pts = Vec::with_capacity(((lw + 7) * (lh + 7)) as usize);
-                for y in -3..=(lh as i32 + 3) {
-                    for x in -3..=(lw as i32 + 3) {
+                for y in -mg..=(lh as i32 + mg) {
+                    for x in -mg..=(lw as i32 + mg) {
                         pts.push((x, y, batch_colour(seed ^ rot as u64, x, y, ncol)));
                     }
                 }
@@ -1074,8 +1076,8 @@ pub fn run(ctx: &Ctx) -> Report {
         for w in 1..=vmax {
             for h in 1..=vmax {
                 // Miri only: of the VarDisplay<TriColor> geometries inside the known mis-sizing region
-                // (w%8 in 1..=4, thousands of caught panics) keep a 3x3 sample
-                if miri && kind == Kind::Tri && (1..=4).contains(&(w % 8)) && !([1, 4, 9].contains(&w) && [1, 3, 10].contains(&h)) {
+                // (w%8 in 1..=4, thousands of caught panics) keep three
+                if miri && kind == Kind::Tri && (1..=4).contains(&(w % 8)) && ![(1, 1), (4, 3), (9, 10)].contains(&(w, h)) {
                     continue;
                 }
                 let geo = Geo { w, h, kind, bwrbit: false };
@@ -1104,7 +1106,7 @@ pub fn run(ctx: &Ctx) -> Report {
     rep.note("VarDisplay backing slices start with seeded random bytes (so cleared bits are observable); alias buffers are first painted with a seeded random colour per pixel through one draw_iter call that is itself checked");
     rep.note("tag w%8!=0 marks VarDisplay<TriColor> geometries with w%8 in 1..=4, the widths for which ceil(2w/8) != 2*ceil(w/8); widths with w%8 in 5..=7 size correctly and get ordinary tags");
     if miri {
-        rep.note("mode miri: aliases skipped, VarDisplay w,h in 1..=10, single thread; the point grid of each geometry is drawn in one rotation ((w+h)%4) instead of four; coordinate extremes (all four rotations, first and last colour) on 5 geometries per colour type, bwrbit=true only for TriColor, and of the VarDisplay<TriColor> geometries with w%8 in 1..=4 (known mis-sizing, every failing call is a caught panic costing ~0.1 s under Miri) only w in {1,4,9} x h in {1,3,10}");
+        rep.note("mode miri: aliases skipped, VarDisplay w,h in 1..=10, single thread; per geometry the point grid (margin 1 instead of 3) is drawn in one rotation ((w+h)%4) instead of four; coordinate extremes (all four rotations, first and last colour) on geometries 2x3 and 10x10; bwrbit=true only for TriColor; of the VarDisplay<TriColor> geometries with w%8 in 1..=4 (known mis-sizing; every failing call is a caught panic costing ~0.4 s under Miri) only 1x1, 4x3, 9x10");
     }
     rep
 }
